@@ -468,3 +468,40 @@ package hashgraph
 //@   requires e != nil
 //@   modifies e.Body, e.Signature, e.topologicalIndex, e.lastAncestors, e.firstDescendants
 //@   ensures[restore] ret0 == nil ==> (forall w eventWrapper :: __seqeq(data, __json(w)) ==> __eq(e.Body.Transactions, w.Body.Transactions) && __eq(e.Body.InternalTransactions, w.Body.InternalTransactions) && __eq(e.Body.Parents, w.Body.Parents) && __eq(e.Body.Creator, w.Body.Creator) && e.Body.Index == w.Body.Index && __eq(e.Body.BlockSignatures, w.Body.BlockSignatures) && e.Body.Timestamp == w.Body.Timestamp && e.Signature == w.Signature && e.Body.creatorID == w.CreatorID && e.Body.otherParentCreatorID == w.OtherParentCreatorID && e.Body.selfParentIndex == w.SelfParentIndex && e.Body.otherParentIndex == w.OtherParentIndex && e.topologicalIndex == w.TopologicalIndex && __eq(e.lastAncestors, w.LastAncestors) && __eq(e.firstDescendants, w.FirstDescendants))
+
+// ------------------------------------------------------------------------------------------------
+// Validator-set history cache (C10)
+
+// wf: rounds is strictly ascending and lists exactly the rounds that have a set; every set is present.
+//@ ghost func (c *PeerSetCache) wf() bool { return c.peerSets != nil && len(c.rounds) < 4611686018427387904 && (forall i int, j int :: 0 <= i && i < j && j < len(c.rounds) ==> c.rounds[i] < c.rounds[j]) && (forall i int :: 0 <= i && i < len(c.rounds) ==> __in(c.rounds[i], c.peerSets) && c.peerSets[c.rounds[i]] != nil) && (forall r int :: __in(r, c.peerSets) ==> (exists i int :: 0 <= i && i < len(c.rounds) && c.rounds[i] == r)) }
+
+//@ func (c *PeerSetCache) Get(round int) (*peers.PeerSet, error)
+//@   ints checked
+//@   safety on
+//@   requires c != nil && c.wf()
+//@   modifies nothing
+//@   ensures[empty]     len(c.rounds) == 0 ==> ret1 != nil && ret0 == nil
+//@   ensures[latest-le] len(c.rounds) > 0 && round >= c.rounds[0] ==> ret1 == nil && ret0 != nil && (exists k int :: 0 <= k && k < len(c.rounds) && ret0 == c.peerSets[c.rounds[k]] && c.rounds[k] <= round && (k == len(c.rounds)-1 || round < c.rounds[k+1]))
+//@   aux[before-first]  len(c.rounds) > 0 && round < c.rounds[0] ==> ret1 == nil && ret0 == c.peerSets[c.rounds[0]]
+//@   loop 1 invariant[ge] 0 <= i && i <= len(c.rounds)-1 && round >= c.rounds[i] && !__in(round, c.peerSets)
+
+//@ func (c *PeerSetCache) Set(round int, peerSet *peers.PeerSet) error
+//@   requires c != nil && c.wf() && peerSet != nil && c.repertoireByPubKey != nil && c.repertoireByID != nil && c.firstRounds != nil
+//@   requires forall i int :: 0 <= i && i < len(peerSet.Peers) ==> peerSet.Peers[i] != nil
+//@   modifies c.rounds, c.peerSets[*], c.repertoireByPubKey[*], c.repertoireByID[*], c.firstRounds[*]
+//@   ensures[no-rewrite] old(__in(round, c.peerSets)) ==> ret0 != nil && __eq(c.rounds, old(c.rounds)) && (forall r int :: __in(r, c.peerSets) == old(__in(r, c.peerSets)) && c.peerSets[r] == old(c.peerSets[r]))
+//@   ensures[insert]     !old(__in(round, c.peerSets)) ==> ret0 == nil && (forall r int :: __in(r, c.peerSets) == (old(__in(r, c.peerSets)) || r == round) && c.peerSets[r] == __ite(r == round, peerSet, old(c.peerSets[r])))
+//@   ensures[wf-len]     !old(__in(round, c.peerSets)) ==> len(c.rounds) == old(len(c.rounds)) + 1
+//@   ensures[wf-asc]     !old(__in(round, c.peerSets)) ==> (forall i int, j int :: 0 <= i && i < j && j < len(c.rounds) ==> c.rounds[i] < c.rounds[j])
+//@   ensures[wf-in]      !old(__in(round, c.peerSets)) ==> (forall i int :: 0 <= i && i < len(c.rounds) ==> __in(c.rounds[i], c.peerSets) && c.peerSets[c.rounds[i]] != nil)
+//@   ensures[wf-onto]    !old(__in(round, c.peerSets)) ==> (forall r int :: __in(r, c.peerSets) ==> (exists i int :: 0 <= i && i < len(c.rounds) && c.rounds[i] == r))
+//@   ensures[rep]        ret0 == nil ==> (forall i int :: 0 <= i && i < len(peerSet.Peers) ==> __in(peers.KeyOf(peerSet.Peers[i]), c.repertoireByPubKey))
+//@   loop 1 modifies c.repertoireByPubKey[*], c.repertoireByID[*], c.firstRounds[*]
+//@   loop 1 invariant[rep] forall i int :: 0 <= i && i < __idx() ==> __in(peers.KeyOf(peerSet.Peers[i]), c.repertoireByPubKey)
+
+//@ iface func (s Store) SetPeerSet(round int, peers *peers.PeerSet) error
+//@   requires peers != nil
+//@   modifies G_pset(s), G_psetOK(s), G_rep(s), G_fault(s)
+//@   ensures[at]      ret0 == nil ==> G_psetOK(s) && G_pset(s)[round] == peers
+//@   ensures[earlier] forall r int :: r < round ==> G_pset(s)[r] == old(G_pset(s))[r]
+//@   ensures[refuse]  ret0 != nil ==> __eq(G_pset(s), old(G_pset(s))) && G_psetOK(s) == old(G_psetOK(s))
